@@ -194,6 +194,9 @@ func visitInstr(fr *frame, instr ssa.Instruction) continuation {
 		// no-op
 
 	case *ssa.UnOp:
+		if i.race != nil && instr.Op == token.MUL {
+			i.raceInstr(fr, instr, instr.X, fr.get(instr.X), mustDeref(instr.X.Type()), false)
+		}
 		fr.set(instr, i.unop(instr, fr.get(instr.X)))
 
 	case *ssa.BinOp:
@@ -249,6 +252,9 @@ func visitInstr(fr *frame, instr ssa.Instruction) continuation {
 		panic("channels are not supported")
 
 	case *ssa.Store:
+		if i.race != nil {
+			i.raceInstr(fr, instr, instr.Addr, fr.get(instr.Addr), mustDeref(instr.Addr.Type()), true)
+		}
 		i.storeTo(mustDeref(instr.Addr.Type()), fr.get(instr.Addr), fr.get(instr.Val))
 
 	case *ssa.If:
@@ -320,6 +326,9 @@ func visitInstr(fr *frame, instr ssa.Instruction) continuation {
 		fr.set(instr, newOmap(instr.Type().Underlying().(*types.Map).Key()))
 
 	case *ssa.Range:
+		if m, ok := fr.get(instr.X).(*omap); ok && i.race != nil {
+			i.raceMap(fr, instr, m, false)
+		}
 		fr.set(instr, rangeIter(fr.get(instr.X), instr.X.Type()))
 
 	case *ssa.Next:
@@ -348,10 +357,16 @@ func visitInstr(fr *frame, instr ssa.Instruction) continuation {
 		}
 
 	case *ssa.Lookup:
+		if m, ok := fr.get(instr.X).(*omap); ok && i.race != nil {
+			i.raceMap(fr, instr, m, false)
+		}
 		fr.set(instr, i.lookup(instr, fr.get(instr.X), fr.get(instr.Index)))
 
 	case *ssa.MapUpdate:
 		m := fr.get(instr.Map).(*omap)
+		if m != nil && i.race != nil {
+			i.raceMap(fr, instr, m, true)
+		}
 		if m == nil {
 			panic(targetPanic{iface{t: i.runtimeErrorString, v: "assignment to entry in nil map"}})
 		}
